@@ -180,7 +180,7 @@ mut("iter_mut_next_back_right_first", I, """        if let Some(item) = slice_ta
             Some(item)
         } else if let Some(item) = slice_take_last_mut(&mut self.right) {""", """        if let Some(item) = slice_take_last_mut(&mut self.right) {
             Some(item)
-        } else if let Some(item) = slice_take_last_mut(&mut self.left) {""", ["C08:TWIN", "C08:MIRROR"])
+        } else if let Some(item) = slice_take_last_mut(&mut self.left) {""", ["C08:ESI1"])
 mut("eq_mut_array_self_recursion", L, """    fn eq(&self, other: &&'a mut [U; M]) -> bool {
         self == *other
     }""", """    fn eq(&self, other: &&'a mut [U; M]) -> bool {
